@@ -1,7 +1,7 @@
 //@ item: integer/src/mul/toom_3.rs :: add_signed_mul_same_len
 // Toom-Cook-3: c += sign * a * b, |a| == |b| == n >= 16.  A long function (13 accumulations into c, 5 evaluations,
-// interpolation): one SMT query of ~10 s, hence the explicit resource limit.
-/*@ #[verifier::spinoff_prover] #[verifier::rlimit(150)] @*/
+// interpolation): one SMT query of ~25 s (about 2e8 rlimit units), hence the explicit resource limit (3.6x margin).
+/*@ #[verifier::spinoff_prover] #[verifier::rlimit(300)] @*/
 pub fn add_signed_mul_same_len(
     c: &mut [Word],
     sign: Sign,
@@ -77,6 +77,7 @@ pub fn add_signed_mul_same_len(
         lemma_toom_evals(va0, va1, va2, vb0, vb1, vb2);
         lemma_pw_add(k, k);
         lemma_pw_plus2(2 * k);
+        lemma_val_bound(c@);
     }
     @*/
 
